@@ -17,12 +17,20 @@ CODES = {
     37: "gro-prepend-drops-psh",
     36: "spec-psh-differs",
     30: "spec-flow-equivalence",
+    39: "spec-invalid-checksum-packet-coalesced",
     41: "gro-udp-noncandidate-overtaken",
     42: "gro-udp-skipped-datagram-overtaken",
     40: "spec-udp-order",
     51: "spec-descriptor",
     52: "spec-length-fields",
     53: "spec-segment-checksums",
+    # the implementation differs from the mirror model although the specification accepts what it did
+    # (reported as a failure of its own: the engine prints no VIOLATION for a bare mismatch in a run that
+    # also contains a known finding, and C16 runs the scenario of its known finding every time)
+    91: "impl-differs-from-model-error-flag",
+    92: "impl-differs-from-model-toWrite",
+    93: "impl-differs-from-model-written-buffer",
+    94: "kernel-spec-differs-from-gsoSplit",
 }
 STAT_NAMES = ["packets", "noop", "inserted", "coalesced_append", "coalesced_prepend", "tcp_gso_buffers",
               "udp_gso_buffers", "error_returns"]
@@ -89,6 +97,18 @@ class Prop:
         res.sort(key=lambda f: (f["case"], f["kind"]))
         return res
 
+    @staticmethod
+    def _promote(fs):
+        bad2 = {f["case"] for f in fs if f["kind"] == 2}
+        seen = set()
+        for f in list(fs):
+            if f["kind"] == 1 and f["case"] not in bad2 and f["case"] not in seen:
+                seen.add(f["case"])
+                pos = {1: 91, 2: 92, 900: 94}.get(f["pos"], 93)
+                fs.append({"case": f["case"], "kind": 2, "pos": pos, "mismatch_pos": f["pos"]})
+        fs.sort(key=lambda f: (f["case"], f["kind"]))
+        return fs
+
     def failures(self, outputs, files, cases):
         fs = self._fails(self.shards, files, outputs)
         # second opinion of the harness (repository's gsoSplit + gVisor checksums) on GSO buffers the
@@ -100,7 +120,7 @@ class Prop:
         for i, c in enumerate(cases):
             if c.get("second") and i not in bad2:
                 fs.append({"case": i, "kind": 1, "pos": 900, "second": c["second"][:3]})
-        return fs
+        return self._promote(fs)
 
     def stats(self, outputs):
         tot = [0] * len(STAT_NAMES)
@@ -126,7 +146,7 @@ class Prop:
         for i, c in enumerate(meta["cases"]):
             if c.get("panic"):
                 fs.append({"case": i, "kind": 2, "pos": 12, "panic": c["panic"][:200]})
-        return fs
+        return self._promote(fs)
 
     def shrink_candidates(self, case):
         # the dedicated finding scenarios are minimal by construction
